@@ -73,7 +73,7 @@ def one_mincyc(rep, model):
         for tn, tk in tks.items():
             inst = f'burst_kwargs={bn}:thresholds={tn}'
             res, ctx = E.run(model, 'compute_features', {'burst_method': C('amp'), 'burst_kwargs': bk, 'threshold_kwargs': tk}, no_inline=E.HEAVY,
-                             kinds={'fs': 'num', 'f_range': 'tuple'})
+                             kinds={'fs': 'num', 'f_range': 'tuple', 'B_min_n_cycles': 'num', 'T_min_n_cycles': 'num', 'bft': 'num'})
             want = B if bn.startswith('with') else Tm if tn == 'with' else C(3)
             e1, e2 = E.calls_to(ctx, 'compute_burst_fraction'), E.calls_to(ctx, 'detect_bursts_amp')
             if len(e1) != 1 or len(e2) != 1 or e1[0]['guard'] != T.TRUE or e2[0]['guard'] != T.TRUE:
